@@ -22,6 +22,12 @@ Absorb(a, b) == /\ a \in rows /\ b \in rows /\ a # b
 CollapseNext == \E a, b \in rows : Absorb(a, b)
 Settled == ~ENABLED CollapseNext
 
+(* the rest array of a list of parts: the rows of every part, the id prefixed with the number of the part so that
+   rests of different parts that carry the same id stay apart *)
+ListRows(parts) == UNION {{[r EXCEPT !.id = <<k - 1, r.id>>] : r \in parts[k]} : k \in 1..Len(parts)}
+ByVoice(v) == {r \in rows : r.voice = v}
+PrefixKeepsRowsApart == Cardinality(ListRows(<<ByVoice(1), ByVoice(2), ByVoice(1)>>)) = 2 * Cardinality(ByVoice(1)) + Cardinality(ByVoice(2))
+
 RECURSIVE SumDur(_)
 SumDur(S) == IF S = {} THEN 0 ELSE LET x == CHOOSE y \in S : TRUE IN x.dur + SumDur(S \ {x})
 Voices == {sc[k].voice : k \in 1..Len(sc)}
